@@ -166,7 +166,7 @@ fn num_128_delegates() {
     let signed: bool = kani::any();
     let bits: [u8; 16] = kani::any();
     let r = if signed { Repr::from_num(i128::from_ne_bytes(bits)) } else { Repr::from_num(u128::from_ne_bytes(bits)) };
-    obl!(r.is_ok(), "num128.ok", "C14");
-    obl!(unsafe { I_CALLS == 1 && I_SIZE == 16 && I_VAL == bits }, "num128.every_value_goes_to_itoa_unchanged", "C14");
-    obl!(unsafe { F_CALLS == 1 && F_PTR == ITOA_OUT.as_ptr() && F_LEN == ITOA_OUT.len() }, "num128.text_is_itoas_output", "C14");
+    sobl!(r.is_ok(), "num128.ok", "C14");
+    sobl!(unsafe { I_CALLS == 1 && I_SIZE == 16 && I_VAL == bits }, "num128.every_value_goes_to_itoa_unchanged", "C14");
+    sobl!(unsafe { F_CALLS == 1 && F_PTR == ITOA_OUT.as_ptr() && F_LEN == ITOA_OUT.len() }, "num128.text_is_itoas_output", "C14");
 }
